@@ -165,6 +165,16 @@ CHECKS = {
              "and otherwise gets at most one more slice, the joiner is always released, revived units run the new function "
              "once with the new argument from the requested pool, no state is observed after TERMINATED, no leak/double free",
         ref="DESIGN.md §5 C12"),
+    "C13": dict(
+        technique="runtime monitoring: per-slice pool log of the migrating unit checked against a request ledger (exact in "
+                  "sequential phases on a parked unit, latest-recorded-request rule with in-flight awareness in concurrent "
+                  "phases), callback ledger, rejection probes, delay injection at the request/handler window, ASan/LSan/TSan",
+        category="exploration",
+        text="held on the executions produced: hundreds of exact sequential migrations per run via all three request APIs "
+             "(moved within two scheduling points, one callback each), rejected requests without effect, ABT_thread_migrate "
+             "moving the unit to another running stream, and thousands of concurrent/self requests racing with yields where "
+             "no recorded request was lost and the unit ran exactly once to completion",
+        ref="DESIGN.md §5 C13"),
 }
 
 
